@@ -1079,9 +1079,20 @@ def r19_loaded_model_unfiltered(ctx, rule):
         ctx.ok(rule, q, 'load_rules passes %s to %d readers and neither re-binds nor shrinks any of its tables' % (g, len(loads)))
 
 
+def _shared_rule(mod, name, **kw):
+    def run(ctx, rule):
+        import importlib
+        return getattr(importlib.import_module('sa.props.' + mod), name)(ctx, rule, **kw)
+    return run
+
+
 def rules(tier):
     return [('C10.R1', r1_copy_discipline), ('C10.R2', r2_memo_key), ('C10.R3', r3_sibling_constructions), ('C10.R4', r4_exact_last_transition),
-            ('C10.R5', r5_sibling_cursor_advance), ('C10.R6', r6_model_immutable), ('C10.R7', r7_prune_discipline), ('C10.R8', r8_guess_from_tree), ('C10.R9', r9_level_cursor_domain), ('C10.R10', r10_cache_key_agreement), ('C10.R11', r11_generator_state_per_object), ('C10.R12', r12_hit_implies_stored), ('C10.R13', r13_window_slices), ('C10.R14', r14_zero_budget_is_valid), ('C10.R15', _omen_reader_strip), ('C10.R16', r16_no_shared_defaults), ('C10.R17', _length_domain), ('C10.R18', r18_popped_level_read_once), ('C10.R19', r19_loaded_model_unfiltered), ('C10.R20', r20_omen_config_keys)]
+            ('C10.R5', r5_sibling_cursor_advance), ('C10.R6', r6_model_immutable), ('C10.R7', r7_prune_discipline), ('C10.R8', r8_guess_from_tree), ('C10.R9', r9_level_cursor_domain), ('C10.R10', r10_cache_key_agreement), ('C10.R11', r11_generator_state_per_object), ('C10.R12', r12_hit_implies_stored), ('C10.R13', r13_window_slices), ('C10.R14', r14_zero_budget_is_valid), ('C10.R15', _omen_reader_strip), ('C10.R16', r16_no_shared_defaults), ('C10.R17', _length_domain), ('C10.R18', r18_popped_level_read_once), ('C10.R19', r19_loaded_model_unfiltered), ('C10.R20', r20_omen_config_keys),
+            # C09-da: the OMEN tables must decode exactly
+            ('C10.R21', _shared_rule('plumbing', 'decode_error_policy')),
+            # C10-da: the .omn session file opened 'ab' - a second interruption appends behind the first and load_session reads the stale record
+            ('C10.R22', _shared_rule('plumbing', 'writers_truncate'))]
 
 
 META = {
